@@ -304,7 +304,7 @@ macro_rules! c10_badop {
 /// symbolic (any value, incl. NUL): decides terminator / digit / letter-case handling at those
 /// positions for all 256 values each, against the reference decoder.
 macro_rules! c10_template {
-    ($(#[$attr:meta])* $name:ident, [$($byte:expr),*], [$($pos:expr),*], $stable:expr, $unw:expr) => {
+    ($(#[$attr:meta])* $name:ident, [$($byte:expr),*], [$($pos:expr),*], $stable:expr, $badutf8:expr, $unw:expr) => {
         #[kani::proof]
         #[kani::unwind($unw)]
         #[kani::stub(std::fmt::format, fmt_stub)]
@@ -314,7 +314,20 @@ macro_rules! c10_template {
             let mut len = 0;
             $( b[len] = $byte; len += 1; )*
             $( b[$pos] = kani::any(); )*
-            check_decode!(b, len, $stable);
+            if $badutf8 {
+                // a string of this datagram is not valid UTF-8: a Packet cannot hold it, the decoder must refuse
+                // (ERROR: the documented placeholder message is accepted instead)
+                let res = Packet::deserialize(&b[..len]);
+                match &res {
+                    Ok(Packet::Error { msg, .. }) => assert!(bytes_eq(msg.as_bytes(), b"(no message)"), "C10 utf8: ERROR with an invalid UTF-8 message decoded to something else than the placeholder"),
+                    Ok(_) => assert!(false, "C10 utf8: datagram with an invalid UTF-8 string accepted"),
+                    Err(_) => {}
+                }
+                kani::cover!(true, "witness: decoder returned");
+                std::mem::forget(res);
+            } else {
+                check_decode!(b, len, $stable);
+            }
         }
     };
 }
